@@ -11,7 +11,7 @@ IDS="$*"
 [ -z "$IDS" ] && IDS=$(ls seeded | grep '^C[0-9]' | sort)
 for d in $IDS; do
   git -C "$WT" checkout -q -- . && git -C "$WT" clean -fdq
-  git -C "$WT" apply "seeded/$d/patch.diff" || { echo "$d patch-does-not-apply" >> "$OUT"; continue; }
+  git -C "$WT" apply "/verif/seeded/$d/patch.diff" || { echo "$d patch-does-not-apply" >> "$OUT"; continue; }
   prop=$(echo "$d" | cut -c1-3)
   checks="$prop"
   case "$d" in C13b|C07c) checks="C03";; C07b) checks="C07 C03";; esac
